@@ -30,6 +30,9 @@ def run(c):
         "adjacent or apart, each occurrence with its own RCPT answer); message buffers that can be opened only k = 0..3 times in deliveries spanning several recipient domains "
         "(one connection and one Open() each; which connections meet the failing Open is observed and passed to the model as an oracle), readers that fail mid-way for the one connection "
         "that gets them, messages quarantined after the recipients were added; the buffer's error may only show up in the results of as many connections as Open()/Read failed for; "
+        "SMTPUTF8 negotiation: message WITH / WITHOUT the SMTPUTF8 flag (MsgMetadata.SMTPOpts.UTF8) x next hop without SMTPUTF8 / offering it / offering it and enforcing RFC 6531 section 3.4 "
+        "(non-ASCII RCPT refused unless MAIL FROM carried the parameter) x order of ASCII / IDN-domain-only (convertible) / non-ASCII-local-part (no ASCII form; also on the U-label and A-label connections) "
+        "recipients on ONE connection: k accepted plain recipients first, then the non-ASCII local part (accepted or refused by the next hop), then more of either kind, in order or shuffled, on fresh and pooled connections; "
         "ground truth = what the next hop holds in transactions it answered 250; "
         "LMTP next hop through the real target.lmtp with per-recipient statuses (by position, respelled mailboxes, exact duplicates each with its own reply and followed by recipients whose reply differs, replies cut off, faults under RCPT); "
         "pipeline reverse translation with 1-to-N rewrites and rewrite results that are themselves client-supplied recipients (chains, swaps), "
